@@ -1,6 +1,3 @@
 SPECIFICATION TSpec
-INVARIANT InvCrashSafe
-INVARIANT InvDurable
-INVARIANT InvNoOrphan
 POSTCONDITION Accepted
 CHECK_DEADLOCK FALSE
